@@ -21,7 +21,7 @@ RULE = ("schemas with required fields (with and without defaults), schema-level 
         "are own required fields / schema validators of a disabled sub-configuration; inserted list items with a "
         "missing required field must be rejected; non-trivial = >= 1 returning call judged plus >= 1 further call (returning or raising); distinct = "
         "distinct (schema, calls)")
-REQUIRED = ("schemas_with_sections_named_like_config_methods", "sections_shared_with_a_second_parent", "loads_with_empty_required_values", "reinsertions_of_invalidated_members", "calls_returned_judged", "calls_raised", "required_walks", "validator_log_checks", "collect_mode_compared",
+REQUIRED = ("feature_flags_redeclared_as_plain_booleans", "schemas_with_shared_validator_decorator", "schemas_with_sections_named_like_config_methods", "sections_shared_with_a_second_parent", "loads_with_empty_required_values", "reinsertions_of_invalidated_members", "calls_returned_judged", "calls_raised", "required_walks", "validator_log_checks", "collect_mode_compared",
             "exemption_cases_judged", "list_item_insertions_judged", "call:load_tree", "call:loads", "call:load", "call:validate",
             "flags_off_seen", "failing_validators_seen")
 ASSUMPTIONS = ["one-directional: nothing is demanded of calls that raise, except the exemption of disabled sub-configurations",
@@ -44,7 +44,10 @@ def decorate(rng, node, depth=0):
             flag["params"]["default"] = False
         sch["fields"].insert(rng.randrange(len(sch["fields"]) + 1), flag)
     if rng.random() < 0.5:
-        sch["validators"] = [rng.choice(["pass"] * 8 + ["fail", "boom"]) for _ in range(rng.choice([1, 1, 2]))]
+        sch["validators"] = [rng.choice(["pass"] * 8 + ["fail", "boom"]) for _ in range(rng.choice([1, 1, 2, 3]))]
+        if len(sch["validators"]) > 1 and rng.random() < 0.5:
+            sch["shared_decorator"] = True
+            rng.shuffle(sch["validators"])
     for ch in sch["fields"]:
         if ch["kind"] in ("schema", "ctype"):
             decorate(rng, ch, depth + 1)
@@ -113,6 +116,12 @@ def generate(rng, ctx):
                 call["item"] = gen.tree_for(rng, nd["item"], env, valid=True, partial=rng.choice([0.0, 0.5, 0.9]))
                 call["how"] = rng.choice(["append", "insert", "setitem", "reinsert", "reinsert"])
                 call["via"] = rng.choice(["setitem", "append", "insert", "slice"])
+        if call["call"] == "validate" and rng.random() < 0.25:
+            # the schema is edited between two uses: a feature flag is re-declared as an ordinary boolean under its key
+            flags = [p for p, nd in spec.walk(schema) if nd["kind"] == "field" and nd["family"] == "flag" and "[]" not in p and
+                     all(spec.node_at(schema, ".".join(p.split(".")[:i]))["kind"] == "schema" for i in range(1, p.count(".") + 1))]
+            if flags:
+                call["redeclare_flag"] = rng.choice(flags)
         if call["call"] == "validate" and rng.random() < 0.5:
             # before validating: a section of this configuration is also assigned to a second configuration of the schema
             # (which becomes its parent), then one of its required fields is reset in place
@@ -208,6 +217,8 @@ def run(case, ctx, res):
     returned = raised = 0
     if case["schema"].get("method_like_names"):
         res.count("schemas_with_sections_named_like_config_methods")
+    if any(nd.get("shared_decorator") for _p, nd in [("", case["schema"])] + list(spec.walk(case["schema"]))):
+        res.count("schemas_with_shared_validator_decorator")
     twin = None
     for idx, call in enumerate(case["calls"]):
         kind = call["call"]
@@ -217,6 +228,19 @@ def run(case, ctx, res):
             _insert(drv, res, call, idx)
             continue
         res.count("call:" + kind)
+        if call.get("redeclare_flag"):
+            fpath = call["redeclare_flag"]
+            nd = spec.node_at(root, fpath)
+            if nd is not None and nd["family"] == "flag":
+                try:
+                    owner_path, key = spec.split_parent(fpath)
+                    owner = drv.built.schema[owner_path] if owner_path else drv.built.schema
+                    kw = {"default": nd["params"]["default"]} if "default" in nd.get("params", {}) else {}
+                    setattr(owner, key, cc.BoolField(**kw))
+                    nd["family"] = "bool"
+                    res.count("feature_flags_redeclared_as_plain_booleans")
+                except Exception:
+                    res.count("redeclare_not_applicable")
         if call.get("share"):
             try:
                 if twin is None:
